@@ -95,8 +95,10 @@ CLAIMED = {
          'Lean 4 invariants of the loop model for every schedule + pass-by-pass correspondence of the real loop with the model',
          'The loop model (reader, buffer, event queue, Table 9-10 as in C04, ARTIM clock, fragment generator, transport '
          'failures) satisfies for EVERY tick list, both roles: ARTIM runs exactly in Sta2/Sta13, idle iff transport closed, '
-         'P-DATA sent/indicated only in Sta6/8 resp. Sta6/7, silence after the end; act_is_table_9_10 ties the model\'s '
-         'actions to the PS3.8 action definitions. The real provider loop is executed (S2) on all histories to depth 2 '
+         'P-DATA sent/indicated only in Sta6/8 resp. Sta6/7, silence after the end; provider_follows_machine: over every '
+         'history without write failures, rejected P-DATA or illegal user primitives the ordered effects and the final '
+         'state of a whole run are those of the PS3.8 machine (Table 9-10 + action definitions) folded over the events '
+         'dispatched. The real provider loop is executed (S2) on all histories to depth 2 '
          'after 18 state-reaching prefixes, depth 3 from both starts and random walks of length 200, and compared pass by '
          'pass (state, socket, timer, ordered effects) with the model; the invariants are also judged on the real trace.',
          'Partial: "the real loop equals the model on every history" is established by exhaustive bounded and random '
